@@ -643,6 +643,19 @@ def oracle_filters(rng, n, stats, props, kinds=('size', 'prefix', 'position', 's
                                    [tuple(map(cell, r)) for r in exp.itertuples(index=False, name=None)] != [tuple(map(cell, r)) for r in oc.itertuples(index=False, name=None)]):
                 v.append(viol('C06', '%s filter_candset differs from row-wise filter_pair' % kind, filter_case(kind, d, ts, dict(case0, candset=frame_to_case(C), n_jobs=nj2)),
                               len(exp), len(oc)))
+            if 'C06' in props and len(oc) and rng.random() < 0.5:
+                # idempotence (Lean: C06.candset_idempotent): the result is itself a candidate set — with gaps in its row
+                # labels — and row-wise filter_pair keeps every row of it
+                try:
+                    with quiet():
+                        oc2 = f.filter_candset(oc, clk, crk, L, R, lk, rk, la, ra, n_jobs=rng.choice([1, 2, 3]), show_progress=False)
+                    stats.hit('oracle.candset.refiltered')
+                    if (list(oc2.index) != list(oc.index) or list(oc2.columns) != list(oc.columns) or
+                            [tuple(map(cell, r)) for r in oc2.itertuples(index=False, name=None)] != [tuple(map(cell, r)) for r in oc.itertuples(index=False, name=None)]):
+                        v.append(viol('C06', '%s filter_candset of its own result differs from row-wise filter_pair (which keeps every row)' % kind,
+                                      filter_case(kind, d, ts, dict(case0, candset=frame_to_case(oc))), len(oc), len(oc2)))
+                except Exception as e:   # noqa: BLE001
+                    v.append(viol('C15', 'valid filter_candset call (on a filtered candset) raised %s' % type(e).__name__, filter_case(kind, d, ts, dict(case0, candset=frame_to_case(oc)))))
             if 'C08' in props and not f.allow_missing:
                 for a, b in zip(oc[clk], oc[crk]):
                     if is_missing(lval[a]) or is_missing(rval[b]):
